@@ -4,6 +4,9 @@ EXTENDS Dataset
 FramesSmall == { <<{1}>>, <<{1,2}>>, <<{2,3}>>, <<{1,2},{1,2}>>, <<{3},{1}>> }
 FramesTiny  == { <<{1}>>, <<{1,2}>>, <<{2},{1,2}>> }
 FramesWide  == { <<{1}>>, <<{2}>>, <<{1,2}>>, <<{2,3}>>, <<{1,2,3}>>, <<{1,2},{1,2}>>, <<{3},{1}>>, <<{1},{2},{3}>> }
+(* part numbers are rendered as decimal text in file names: a frame long enough to cross 9 -> 10 *)
+Long11      == [c \in 1..11 |-> {1}]
+FramesLong  == { <<{1}>>, <<{1,2}>>, Long11 }
 OpsAll == {"append", "overwrite", "remove", "wrg"}
 OpsAppend == {"append"}
 BoolBoth == {TRUE, FALSE}
